@@ -87,8 +87,11 @@ func sceneExchangeP(nT, nV int) {
 		hasE, hasN := k.HasRequestBatchExpiration(ctx, id), k.HasNewRequestBatch(ctx, id)
 		chk("C11", vf.Implies(post.State == types.RUNNING, hasE != hasN), "no-rate-running-context-has-one-pending-event")
 		chk("C11", !vf.Store(ctx).Has(types.GetNewRequestBatchKey(id, s.H)), "no-rate-pending-start-not-left-in-the-ended-block")
-		chk("C10 C09 C06", vf.All(post.State == types.RUNNING, post.BatchCounter == bc+1, post.BatchRequestCount == 0), "no-rate-counts-as-a-skipped-batch")
-		chk("C11 C10", expiryAt(k, ctx, id, s.H+timeout), "no-rate-skip-expiry-queued")
+		// (the properties do not say whether a batch without a rate is skipped or tried again later; either way the
+		// counter moves by at most one, and if it moved this is a skipped batch with its expiry queued)
+		moved := post.BatchCounter == bc+1
+		chk("C10 C09 C06", vf.And(post.State == types.RUNNING, vf.Or(moved, post.BatchCounter == bc)), "no-rate-counter-moves-by-at-most-one")
+		chk("C11 C10 C12", vf.Implies(moved, vf.And(post.BatchRequestCount == 0, expiryAt(k, ctx, id, s.H+timeout))), "no-rate-a-skipped-batch-has-its-expiry-queued")
 		chk("C11", vf.And(queued(ctx, types.NewRequestBatchKey, id) == b2i(hasN), queued(ctx, types.ExpiredRequestBatchKey, id) == b2i(hasE)), "no-rate-queues-agree-with-pointers")
 		return
 	}
